@@ -669,7 +669,7 @@ def c13_pipeline_recount(tier, rng):
 # ---- the exon / intron tables as written: grouped rows partition the ungrouped ones ---------------------------------------------------------------
 def _dump_rows_problems(seed):
     """the real ExonCounter pair of a run with read groups (one counter ignoring the groups, one keeping them) fed with the same random
-    profiles through add_read_info_from_profile, then dump(): every (feature, group) with a read including or skipping the feature has its
+    alignment records (repeated read ids, multimapper flags) through add_read_info, then dump(): every (feature, group) with a read including or skipping the feature has its
     row with the recounted numbers, no other row exists, and the rows of a feature sum to its row in the ungrouped table"""
     import os, random, shutil, tempfile, types
     lrc = native.repo_import("src/long_read_counter.py")
@@ -685,11 +685,15 @@ def _dump_rows_problems(seed):
         fmap = [types.SimpleNamespace(id=("chr1", 100 * i, 100 * i + 50, "+"), to_str=(lambda i=i: "chr1\t%d\t%d\t+\tX\tG" % (100 * i, 100 * i + 50))) for i in range(nf)]
         groups = ["g%s" % c for c in "abcd"[:rng.randint(1, 4)]]
         want = {}
-        for _ in range(rng.randint(1, 10)):
+        ginfo = types.SimpleNamespace(exon_property_map=fmap, intron_property_map=[])
+        for k in range(rng.randint(1, 10)):
             g = rng.choice(groups)
             prof = [rng.choice([-2, -1, 0, 0, 1, 1]) if rng.random() < .6 else 0 for _ in range(nf)]
-            plain.add_read_info_from_profile(prof, fmap, "NA")
-            grouped.add_read_info_from_profile(prof, fmap, g)
+            # every processed alignment counts: a read may come with several kept alignment records (same read id, multimapper flag set)
+            ra = types.SimpleNamespace(read_id="r%d" % rng.randint(0, 3), multimapper=rng.random() < .4, read_group=g, exon_gene_profile=prof,
+                                       intron_gene_profile=[], gene_info=ginfo)
+            plain.add_read_info(ra)
+            grouped.add_read_info(ra)
             for i, v in enumerate(prof):
                 if v in (1, -1):
                     w = want.setdefault((100 * i, g), [0, 0])
